@@ -126,7 +126,17 @@ def check_conversion(case):
                               bitnames=bits)
         pos += nb
     order = [bitnames[i] for i in case['bit_order']]
-    b = fix.new_bdd(order)
+    if case.get('pre_reorder'):
+        # the BDD is declared in the order bdd_to_mdd will ask for and
+        # then reordered: its dict order differs from its level order
+        target = []
+        for j in sorted(range(len(ints)), key=lambda k: case['int_order'][k]):
+            target.extend(dvars[f'i{j}']['bitnames'])
+        b = fix.new_bdd(target)
+        import dd.bdd as _bdd
+        _bdd.reorder(b, {x: l for l, x in enumerate(order)})
+    else:
+        b = fix.new_bdd(order)
     bd = Builder(b, bitnames)
     tabs = [t & F for t in case['roots']]
     refs = []
@@ -195,7 +205,7 @@ def run_conv_all(spec, out):
     cnt = nt = 0
     for bo in itertools.permutations(range(3)):
         for t in range(256):
-            case = dict(kind='conv', ints=[2, 1],
+            case = dict(kind='conv', ints=[2, 1], pre_reorder=bool(t & 4),
                         int_order=spec['int_order'], bit_order=list(bo),
                         bit_perms=[t % 2], roots=[t], signs=[t % 3 == 0],
                         garbage=[t * 7 % 256])
@@ -231,6 +241,7 @@ def run_conv_random(spec, out):
                 st.one_of(st.integers(0, F), st.sampled_from([0, F])),
                 min_size=k, max_size=k)),
             signs=draw(st.lists(st.booleans(), min_size=k, max_size=k)),
+            pre_reorder=draw(st.booleans()),
             garbage=draw(st.lists(st.integers(0, F), max_size=3)))
 
     @hypothesis.seed(spec['seed'])
@@ -400,6 +411,22 @@ def check_algebra(case):
                     dict(extra=sorted(set(mdd._succ) - want)[:5],
                          missing=sorted(want - set(mdd._succ))[:5]))
             after_gc = 2
+        elif kind == 'gc_roots':
+            # rooted collection; `roots` may be any iterable of nodes
+            nodes = sorted(mdd._succ)
+            sel = [u_ for i_, u_ in enumerate(nodes) if (op[1] >> (i_ % 12)) & 1]
+            form = op[2] % 4
+            arg = (sel if form == 0 else set(sel) if form == 1
+                   else iter(sel) if form == 2 else (x_ for x_ in sel))
+            zero = {u_ for u_ in sel if mdd._ref[u_] == 0 and u_ != 1}
+            mdd.collect_garbage(arg)
+            require(not (zero & set(mdd._succ)),
+                    'mdd.gc_roots_left_unreferenced_root',
+                    dict(left=sorted(zero & set(mdd._succ))[:5]))
+            roots_ = [u_ for u_, c_ in ledger.items() if c_ > 0]
+            require(mdd_reachable(mdd, roots_) <= set(mdd._succ),
+                    'mdd.gc_deleted_reachable')
+            after_gc = 2
         elif kind == 'rebuild':
             # second construction route: canonicity
             u, tu = pick[op[1]]
@@ -489,6 +516,8 @@ def run_algebra(spec, out):
             st.tuples(st.just('gc')),
             st.tuples(st.just('gc')),
             st.tuples(st.just('bad'), st.integers(0, 6), st.integers(0, 9)),
+            st.tuples(st.just('gc_roots'), st.integers(0, 4095),
+                      st.integers(0, 3)),
             st.tuples(st.just('rebuild'), st.integers(0, 9)),
         ).map(list)
         return dict(
